@@ -125,6 +125,108 @@ func checkC09(c *hx.Checker) {
 			}
 		}
 	}
+	// special values: every tuple of length 1..3 over {+-Inf, +-MaxFloat, +-0, 1, smallest subnormal} (floats) and
+	// {MIN, MAX, 0, -1, 1} (integers), as a vector and as the rows / columns of a matrix; ties resolve to the first index
+	for _, dt := range gateDTs("ArgMax", 0) {
+		var alpha []uint64
+		if dt.IsFloat() {
+			for _, v := range []float64{math.Inf(1), math.Inf(-1), math.MaxFloat32, -math.MaxFloat32, 0, math.Copysign(0, -1), 1, 1e-45} {
+				if dt == ref.F64 && math.Abs(v) == math.MaxFloat32 {
+					v = math.Copysign(math.MaxFloat64, v)
+				}
+				if dt == ref.F64 && v == 1e-45 {
+					v = 5e-324
+				}
+				alpha = append(alpha, ref.EncF(dt, v))
+			}
+		} else if dt.IsInt() {
+			sp := ref.SpecialInts(dt)
+			alpha = append(alpha, sp...)
+			if len(alpha) > 6 {
+				alpha = alpha[:6]
+			}
+		} else {
+			continue
+		}
+		ix := rangeI64(0, len(alpha)-1)
+		for n := 1; n <= 3; n++ {
+			for _, tup := range seqs(ix, n, n) {
+				for si, sh := range [][]int{{n}, {2, n}, {n, 2}} {
+					ax := len(sh) - 1
+					if si == 2 {
+						ax = 0
+					}
+					data := ref.New(dt, sh...)
+					for i := range data.V {
+						cc := ref.Unravel(i, sh)
+						other := 0
+						if len(sh) == 2 {
+							other = cc[1-ax]
+						}
+						data.V[i] = alpha[tup[(cc[ax]+other)%n]]
+					}
+					// gorgonia's Argmax stops at the first +Inf it meets after position 0 (KF-C09-3): wrong exactly
+					// when a slice starts with +Inf and holds another +Inf later
+					infAgain := false
+					if dt.IsFloat() {
+						nSlices := 1
+						if len(sh) == 2 {
+							nSlices = 2 // slice s holds tup rotated by s
+						}
+						for rot := 0; rot < nSlices; rot++ {
+							cnt := 0
+							for _, k := range tup {
+								if k == 0 {
+									cnt++
+								}
+							}
+							if tup[rot%n] == 0 && cnt >= 2 {
+								infAgain = true
+							}
+						}
+					}
+					for _, kd := range []int{0, 1} {
+						exp, err := ref.ArgMax(data, ax, kd != 0)
+						extra := []string{fmt.Sprintf("keepdims=%d", kd), "special-values"}
+						if infAgain {
+							extra = append(extra, "posinf-first-and-again")
+						}
+						if len(sh) == 1 && kd == 0 {
+							extra = append(extra, "result-rank0")
+						}
+						jobs = append(jobs, newJob("ArgMax", []hx.Attr{hx.AInt("axis", int64(ax)), hx.AInt("keepdims", int64(kd))}, []*ref.T{data}, []*ref.T{exp}, err, hx.DCompute, hx.Bits, "op", nil, fmt.Sprintf("special tup=%v sh=%v kd=%d", tup, sh, kd), extra...))
+					}
+					if dt.IsFloat() && si < 2 {
+						// the same data through ReduceMax / ReduceMin (tuples without a +0/-0 pair: their max/min is not unique)
+						z := 0
+						for _, k := range tup {
+							if k == 4 || k == 5 {
+								z++
+							}
+						}
+						if z < 2 {
+							for _, op := range []string{"ReduceMax", "ReduceMin"} {
+								exp, err := ref.Reduce(data, []int64{int64(ax)}, true, true, op == "ReduceMax")
+								jobs = append(jobs, newJob(op, []hx.Attr{hx.AInts("axes", int64(ax)), hx.AInt("keepdims", 1)}, []*ref.T{data}, []*ref.T{exp}, err, hx.DCompute, hx.Bits, "op", nil, fmt.Sprintf("special tup=%v sh=%v", tup, sh), "keepdims=1", "special-values"))
+							}
+						}
+					}
+				}
+			}
+		}
+	}
+	// extreme integers as axis / axes
+	for _, e := range extremeInts {
+		d := ref.Distinct(ref.F32, []int{2, 3})
+		bad := ref.Invalid("extreme integer")
+		for _, rt := range []string{"op", "model"} {
+			jobs = append(jobs, newJob("ArgMax", []hx.Attr{hx.AInt("axis", e)}, []*ref.T{d}, nil, bad, hx.DError, hx.Bits, rt, nil, fmt.Sprintf("axis=%d", e), "extreme-int"))
+			jobs = append(jobs, newJob("Softmax", []hx.Attr{hx.AInt("axis", e)}, []*ref.T{d}, nil, bad, hx.DError, hx.Bits, rt, nil, fmt.Sprintf("axis=%d", e), "extreme-int"))
+			jobs = append(jobs, newJob("LogSoftmax", []hx.Attr{hx.AInt("axis", e)}, []*ref.T{d}, nil, bad, hx.DError, hx.Bits, rt, nil, fmt.Sprintf("axis=%d", e), "extreme-int"))
+			jobs = append(jobs, newJob("ReduceMax", []hx.Attr{hx.AInts("axes", e)}, []*ref.T{d}, nil, bad, hx.DError, hx.Bits, rt, nil, fmt.Sprintf("axes=[%d]", e), "extreme-int"))
+			jobs = append(jobs, newJob("ReduceMin", []hx.Attr{hx.AInts("axes", 0, e)}, []*ref.T{d}, nil, bad, hx.DError, hx.Bits, rt, nil, fmt.Sprintf("axes=[0 %d]", e), "extreme-int"))
+		}
+	}
 	jobs = append(jobs, newJob("ArgMax", []hx.Attr{hx.AInt("select_last_index", 1)}, []*ref.T{ref.Distinct(ref.F32, []int{2, 2})}, nil, ref.Invalid("select_last_index unsupported"), hx.DError, hx.Bits, "op", nil, "select_last_index=1"))
 	// ---------------- ReduceMax / ReduceMin
 	for _, op := range []string{"ReduceMax", "ReduceMin"} {
@@ -237,26 +339,8 @@ func checkC09(c *hx.Checker) {
 					// (KF-C09-1). Tag exactly the inputs for which that shortcut is off by more than the
 					// exp() range, i.e. where the shortcut changes the result beyond rounding.
 					an, _ := normAxisC(a, len(data.Shape))
-					if an == len(data.Shape)-1 {
-						n := data.Shape[an]
-						lim := 60.0
-						if dt == ref.F64 {
-							lim = 600.0
-						}
-						for s0 := 0; s0 < len(data.V); s0 += n {
-							tm, cm := math.Inf(-1), data.F(0)
-							for k := 0; k < n; k++ {
-								v := data.F(s0 + k)
-								tm = math.Max(tm, v)
-								if k > 0 {
-									cm = math.Max(cm, v)
-								}
-							}
-							if math.Abs(tm-cm) > lim {
-								extra = append(extra, "lastaxis-max-shortcut-off")
-								break
-							}
-						}
+					if an == len(data.Shape)-1 && smShortcutOff(data, data.Shape[an]) {
+						extra = append(extra, "lastaxis-max-shortcut-off")
 					}
 				}
 				jobs = append(jobs, newJob(op, attrs, []*ref.T{data}, []*ref.T{exp}, err, hx.DCompute, cmp, "op", nil, desc, extra...))
@@ -317,6 +401,47 @@ func checkC09(c *hx.Checker) {
 			}
 		}
 	}
+	// Softmax slices are independent: two slices of very different magnitude in one tensor (all ordered pairs of
+	// magnitudes for slices of length 1, all length-2 slices against five companions), along the last and along axis 0
+	for _, op := range []string{"Softmax", "LogSoftmax"} {
+		cmp := hx.Tol(2e-4, 1e-37)
+		if op == "LogSoftmax" {
+			cmp = hx.Tol(2e-4, 2e-4)
+		}
+		var pairsSM [][2][]float64
+		for _, a := range alphaSM {
+			for _, b := range alphaSM {
+				pairsSM = append(pairsSM, [2][]float64{{a}, {b}})
+			}
+		}
+		for _, a := range alphaSM {
+			for _, b := range alphaSM {
+				for _, u := range [][]float64{{0, 0}, {1, -1}, {1e4, -1e4}, {1e30, 1}, {-1e30, -1e30}} {
+					pairsSM = append(pairsSM, [2][]float64{{a, b}, u}, [2][]float64{u, {a, b}})
+				}
+			}
+		}
+		for _, pr := range pairsSM {
+			n := len(pr[0])
+			for _, lastAxis := range []bool{true, false} {
+				sh, ax := []int{2, n}, 1
+				if !lastAxis {
+					sh, ax = []int{n, 2}, 0
+				}
+				data := ref.New(ref.F32, sh...)
+				for i := range data.V {
+					cc := ref.Unravel(i, sh)
+					data.V[i] = ref.EncF(ref.F32, pr[cc[1-ax]][cc[ax]])
+				}
+				exp, err := ref.Softmax(data, ax, op == "LogSoftmax")
+				extra := []string{"independent-slices"}
+				if lastAxis && err == nil && smShortcutOff(data, n) {
+					extra = append(extra, "lastaxis-max-shortcut-off")
+				}
+				jobs = append(jobs, newJob(op, []hx.Attr{hx.AInt("axis", int64(ax))}, []*ref.T{data}, []*ref.T{exp}, err, hx.DCompute, cmp, "op", nil, fmt.Sprintf("slices=%v last=%v", pr, lastAxis), extra...))
+			}
+		}
+	}
 	// larger shapes beyond the exhaustive box
 	for _, sh := range [][]int{{4, 5, 6}, {2, 17}, {9, 1, 8}} {
 		x := ref.Fill(ref.F32, sh, func(i int) float64 { return float64((i*37+11)%101)/10 - 5 })
@@ -337,6 +462,39 @@ func checkC09(c *hx.Checker) {
 	}
 	runOpJobs(c, jobs)
 	runReuseJobs(c, jobs)
+}
+
+// smShortcutOff: gorgonia's last-axis Softmax kernel shifts each slice by max(x[0], slice[1:]) - x[0] being the
+// first element of the whole tensor - instead of by the slice maximum (KF-C09-1). This predicate marks exactly
+// the inputs on which that matters beyond rounding: the two maxima differ by more than the exp() range, or the
+// wrong shift pushes an element below the exp() underflow threshold that the right shift keeps above it.
+func smShortcutOff(data *ref.T, n int) bool {
+	lim, under, zero := 60.0, -87.0, -104.0
+	if data.DT == ref.F64 {
+		lim, under, zero = 600.0, -708.0, -746.0
+	}
+	for s0 := 0; s0 < len(data.V); s0 += n {
+		tm, cm := math.Inf(-1), data.F(0)
+		for k := 0; k < n; k++ {
+			v := data.F(s0 + k)
+			tm = math.Max(tm, v)
+			if k > 0 {
+				cm = math.Max(cm, v)
+			}
+		}
+		if math.Abs(tm-cm) > lim {
+			return true
+		}
+		if cm != tm {
+			for k := 0; k < n; k++ {
+				v := data.F(s0 + k)
+				if v-cm < under && v-tm > zero {
+					return true
+				}
+			}
+		}
+	}
+	return false
 }
 
 func normAxisC(a, r int) (int, bool) {
